@@ -26,7 +26,7 @@ from sim.engine_fault import make_exact_engine
 PROP = 'C18'
 WL_DIR = os.path.join(core.VERIF, 'workloads')
 WL_FILES = {'main': 'c18_main.py', 'alt': 'c18_alt.py', 'cap': 'c18_captured.py', 'fac': 'c18_factory.py'}
-CTX_NAMES = [None, 'FP64', 'FP32', 'FP16', 'RTZ16', 'RTP16', 'RTN32', 'RAZ8', 'MP5', 'FX4', 'REAL']
+CTX_NAMES = [None, 'FP64', 'FP32', 'FP16', 'RTZ16', 'RTP16', 'RTN32', 'RAZ8', 'MP5', 'FX4', 'REAL', 'FXF', 'MP40', 'FXM']
 HOT = frozenset(['eval', 'compile', 'to_value', 'from_value', '_mpfr_call_with_prec', '__iter__', 'mpfr_call',
                  '_visit_context', '_normalize', 'register', '_func_ctx', '_call_fpy', '_eval_call', 'round'])
 OPCODE_FILES = ('interpret/byte.py', 'number/gmputils.py', 'number/engine/engine.py', 'fpy2/ops.py',
@@ -293,9 +293,31 @@ def gen_run(seed: int, tier: str, sub: str) -> dict:
     # different threads, before and after other evaluations, is what the property is about (and
     # it keeps the number of fresh-process references per run small)
     call_pool = []
-    for _ in range(r.randint(2, 6)):
-        ns, name = r.choice(pool)
-        call_pool.append((ns, name, catalogue(ns, name, meta[ns]['SIG'][name])[r.randrange(CATALOGUE)], r.choice(CTX_NAMES)))
+    cfg['sweep'] = sub != 'captured' and r.random() < 0.45
+    if cfg['sweep']:
+        # context sweep: one or two functions that compute under the caller's context, the same
+        # arguments, several contexts -- "the same function under another context" as history
+        amb = [n for n in meta['main'].get('AMBIENT', []) if n in meta['main']['SIG']]
+        for name in r.sample(amb, r.randint(1, 2)):
+            args = catalogue('main', name, meta['main']['SIG'][name])[r.randrange(4)]
+            for cname in r.sample(CTX_NAMES, r.randint(3, 5)):
+                call_pool.append(('main', name, args, cname))
+    elif sub != 'captured' and r.random() < 0.3:
+        # failure runs: programs that fail half-way (below a call, inside nested `with` blocks, in a
+        # primitive) mixed with functions computing under the caller's or the default context
+        cfg['failure_mix'] = True
+        m = meta['main']
+        for name in r.sample(m['FAILING'], r.randint(1, 2)):
+            for _ in range(2):
+                call_pool.append(('main', name, catalogue('main', name, m['SIG'][name])[r.randrange(CATALOGUE)], r.choice(CTX_NAMES)))
+        for name in r.sample(m['AMBIENT'], r.randint(1, 2)):
+            args = catalogue('main', name, m['SIG'][name])[r.randrange(4)]
+            call_pool.append(('main', name, args, None))
+            call_pool.append(('main', name, args, r.choice(CTX_NAMES)))
+    else:
+        for _ in range(r.randint(2, 6)):
+            ns, name = r.choice(pool)
+            call_pool.append((ns, name, catalogue(ns, name, meta[ns]['SIG'][name])[r.randrange(CATALOGUE)], r.choice(CTX_NAMES)))
     threads = []
     for t in range(nthreads):
         ops = []
